@@ -280,7 +280,7 @@ Qed.
 (* two trees elaborate, from the initial state, to equivalent expressions with the same groups *)
 Definition same_meaning (e1 e2 : sx) : bool :=
   match den e1 dst0, den e2 dst0 with
-  | Some (a, s1), Some (b, s2) => rx_eqb (norm a) (norm b) && dst_eqb s1 s2
+  | Some (a, s1), Some (b, s2) => rx_eqb (norm a) (norm b) && dst_eqb s1 s2 && loops_ok a && loops_ok b
   | _, _ => false
   end.
 
@@ -291,7 +291,8 @@ Theorem same_meaning_sound e1 e2 : same_meaning e1 e2 = true ->
 Proof.
   unfold same_meaning. destruct (den e1 dst0) as [[a s1]|]; [|discriminate].
   destruct (den e2 dst0) as [[b s2]|]; [|discriminate].
-  intros H. apply andb_true_iff in H as [H1 H2]. apply dst_eqb_eq in H2. subst s2.
+  intros H. apply andb_true_iff in H as [H _]. apply andb_true_iff in H as [H _].
+  apply andb_true_iff in H as [H1 H2]. apply dst_eqb_eq in H2. subst s2.
   exists a, b, s1. repeat split. apply norm_eq_req. exact H1.
 Qed.
 
@@ -353,6 +354,16 @@ Definition t_prefix :=
                     X OpConcat "foo" [X OpChar "f" []; X OpChar "o" []; X OpChar "o" []]].
 Lemma alt_prefix_order_refuted :
   simp_text t_prefix = "foo?" /\ differ t_prefix (simp_ast t_prefix) "foo".
+Proof. split; [vm_compute; reflexivity|vm_compute; discriminate]. Qed.
+
+(* 3b. (?U:abc|ab) => (?U:abc?) : under the U flag the factored "?" is non-greedy *)
+Definition t_prefix_U :=
+  X OpGroupWithFlags "(?U:abc|ab)"
+    [X OpAlt "abc|ab" [X OpConcat "abc" [X OpChar "a" []; X OpChar "b" []; X OpChar "c" []];
+                       X OpConcat "ab" [X OpChar "a" []; X OpChar "b" []]];
+     X OpString "U" []].
+Lemma alt_factoring_under_ungreedy_flag_refuted :
+  simp_text t_prefix_U = "(?U:abc?)" /\ differ t_prefix_U (simp_ast t_prefix_U) "abc".
 Proof. split; [vm_compute; reflexivity|vm_compute; discriminate]. Qed.
 
 (* 4. (a){0}b => b : a capture group disappears *)
